@@ -118,6 +118,8 @@ pub enum MtFlavour {
     Hb,
     /// C13: clone/drop/owned interleavings, teardown inside the simulation
     Lifecycle,
+    /// C04: as Safety, with boundary-dense request sizes (around capacity, 2^31, u32::MAX)
+    Boundary,
 }
 
 fn gen_size(rng: &mut Rng, cap: u32) -> u32 {
@@ -127,6 +129,22 @@ fn gen_size(rng: &mut Rng, cap: u32) -> u32 {
         7..=9 => rng.range(8, 64) as u32,
         10 => rng.range(1, (cap as u64 / 3).max(2)) as u32,
         _ => rng.range(16, 128) as u32,
+    }
+}
+
+fn gen_size_boundary(rng: &mut Rng, cap: u32) -> u32 {
+    let d = rng.range(0, 3) as u32;
+    match rng.below(14) {
+        0 => 0,
+        1 => cap.wrapping_add(d),
+        2 => cap.wrapping_sub(d + rng.range(0, 64) as u32),
+        3 => (1u32 << 31).wrapping_add(d),
+        4 => (1u32 << 31).wrapping_sub(d),
+        5 => u32::MAX - rng.range(0, 96) as u32,
+        6 => u32::MAX - cap.wrapping_add(d),
+        7 => u32::MAX - rng.range(0, 2 * cap as u64) as u32,
+        8 => rng.next_u64() as u32,
+        _ => gen_size(rng, cap),
     }
 }
 
@@ -177,19 +195,19 @@ pub fn gen_spec(seed: u64, run: u64, fl: MtFlavour) -> MtSpec {
         let mut prog = Vec::new();
         // weights: alloc_bytes, aligned, typed, drop, detach_forget, rewrite, check, discard, clone, drop_arena, send, recv
         let w: [u32; 12] = match fl {
-            MtFlavour::Safety => [30, 10, 22, 36, 2, 4, 3, 1, 1, 1, 1, 1],
+            MtFlavour::Safety | MtFlavour::Boundary => [30, 10, 22, 36, 2, 4, 3, 1, 1, 1, 1, 1],
             MtFlavour::Liveness => [30, 8, 18, 36, 4, 0, 0, 4, 1, 1, 1, 1],
             MtFlavour::Hb => [28, 8, 18, 34, 2, 4, 2, 1, 4, 4, 5, 5],
             MtFlavour::Lifecycle => [22, 6, 16, 30, 5, 0, 0, 0, 9, 9, 6, 6],
         };
         let owned_pct = match fl {
-            MtFlavour::Safety | MtFlavour::Liveness => 20,
+            MtFlavour::Safety | MtFlavour::Liveness | MtFlavour::Boundary => 20,
             _ => 55,
         };
         for _ in 0..len {
             let op = match prng.weighted(&w) {
-                0 => TOp::Alloc { kind: AllocKind::Bytes, ty: 0, size: gen_size(&mut prng, cfg.cap), owned: prng.below(100) < owned_pct },
-                1 => TOp::Alloc { kind: AllocKind::Aligned, ty: prng.below(NTYPES as u64) as u8, size: gen_size(&mut prng, cfg.cap) / 2, owned: prng.below(100) < owned_pct },
+                0 => TOp::Alloc { kind: AllocKind::Bytes, ty: 0, size: if fl == MtFlavour::Boundary { gen_size_boundary(&mut prng, cfg.cap) } else { gen_size(&mut prng, cfg.cap) }, owned: prng.below(100) < owned_pct },
+                1 => TOp::Alloc { kind: AllocKind::Aligned, ty: prng.below(NTYPES as u64) as u8, size: if fl == MtFlavour::Boundary { gen_size_boundary(&mut prng, cfg.cap) } else { gen_size(&mut prng, cfg.cap) / 2 }, owned: prng.below(100) < owned_pct },
                 2 => TOp::Alloc { kind: AllocKind::Typed, ty: prng.below(NTYPES as u64) as u8, size: 0, owned: prng.below(100) < owned_pct },
                 3 => TOp::Drop { h: prng.below(16) as usize },
                 4 => TOp::DetachForget { h: prng.below(16) as usize },
